@@ -95,7 +95,14 @@ pub fn gen_rw_run(check: &str, seed: u64, tier: Tier) -> Run {
         }
     }
     run.set("subst_method", w.below(2) as i64);
-    run.set("node_budget", *w.pick(&[200, 600, 2000]));
+    // ExtractionSubst builds an extractor per substitution: quadratic in the e-graph size
+    let budgets: &[i64] = match (tier, run.get("subst_method")) {
+        (Tier::Quick, 1) => &[60, 120, 200],
+        (Tier::Quick, _) => &[100, 200, 400],
+        (Tier::Thorough, 1) => &[200, 400, 800],
+        (Tier::Thorough, _) => &[200, 600, 2000],
+    };
+    run.set("node_budget", *w.pick(budgets));
     run.set("modify", w.chance(1, 2) as i64);
     let mut f = Rng::stream(seed, "faults");
     if f.chance(1, 2) {
@@ -117,6 +124,16 @@ pub fn gen_rw_run(check: &str, seed: u64, tier: Tier) -> Run {
     }
     run.set("oracle_seed", (f.next() >> 1) as i64);
     run
+}
+
+/// node budget of the run; proof-producing builds are several times slower per node
+pub fn effective_budget(run: &Run) -> usize {
+    let b = run.get("node_budget").max(50) as usize;
+    if cfg!(feature = "explanations") {
+        (b / 3).max(40)
+    } else {
+        b
+    }
 }
 
 pub fn new_la_egraph(run: &Run) -> EGraph<LA, SimAn> {
@@ -182,7 +199,7 @@ pub fn exec_la_op(s: &mut Sess<LA, SimAn>, op: &Op, run: &Run, pb: &Rc<RefCell<u
             let mut runner: Runner<LA, SimAn, (), String> = Runner::new(an)
                 .with_egraph(eg)
                 .with_iter_limit(op.int(0).clamp(0, 4) as usize)
-                .with_node_limit(run.get("node_budget").max(50) as usize);
+                .with_node_limit(effective_budget(run));
             // put the e-graph back even if the library panics, then let the panic continue
             // (resume_unwind keeps the recorded panic information of the original panic)
             let r = std::panic::catch_unwind(std::panic::AssertUnwindSafe(|| runner.run(&rules)));
@@ -486,7 +503,7 @@ impl Check for RwCheck {
         let mut s: Sess<LA, SimAn> = Sess::new(new_la_egraph(run), run.get("naming") as u32);
         let mut orng = Rng::stream(run.get("oracle_seed") as u64, "oracle-sampling");
         let pb = Rc::new(RefCell::new(200u64));
-        let budget = run.get("node_budget").max(50) as usize;
+        let budget = effective_budget(run);
         let mut changes = 0;
         let c03 = self.id == "C03";
         let c14 = self.id == "C14";
@@ -649,7 +666,7 @@ fn exec_c11r(run: &Run) -> Outcome {
         CONST_CONFLICT.with(|c| c.set(None));
         let mut s: Sess<LA, SimAn> = Sess::new(new_la_egraph(run), naming);
         let pb = Rc::new(RefCell::new(200u64));
-        let budget = run.get("node_budget").max(50) as usize;
+        let budget = effective_budget(run);
         let mut obs: Vec<String> = Vec::new();
         for (k, op) in run.ops.iter().enumerate() {
             s.cur_op = k;
